@@ -567,7 +567,7 @@ Definition slow_insert (m : imode) (s : state) (e : entry) : state * out * Z :=
                   (mkState t (np + 1) (if rm then Some (lid (last_leaf t)) else hint s), okout, risk)
       | inl er => (s, err_out er, err_flag er)
       end
-  | IDup np => (mkState (root s) np (hint s), match m with MIine => RUniq false | _ => RErr end, 0)
+  | IDup np => (mkState (root s) np (hint s), match m with MIine => RUniq false | _ => RErr end, risk)
   | IErr er => (s, err_out er, err_flag er)
   end.
 
@@ -632,6 +632,8 @@ Fixpoint run (s : state) (ops : list op) : list (out * Z) * state :=
 
 (* no defect class was reached *)
 Definition all_clear (res : list (out * Z)) : bool := forallb (fun p : out * Z => snd p =? 0) res.
+Fixpoint first_flag (a : list (out * Z)) : Z :=
+  match a with [] => 0 | (_, f) :: r => if f =? 0 then first_flag r else f end.
 Definition abs_of (s : state) : list entry := abs (depth (root s)) (root s).
 
 Definition init_state (rootpg np : Z) : state := mkState (Leaf (mkLeaf rootpg [] PAGE 0)) np None.
